@@ -459,8 +459,8 @@ func TestCheck(t *testing.T) {
 		return f
 	})
 	r.Main(evid.Meta{
-		Rule:        "the limiter built with (total, per-path) limits from {1,2,unlimited}, the wrapped do blocking on a per-request gate and keeping in-flight gauges; events {arrive(i,path), cancel(i), finish(i)} executed one at a time in a synctest bubble with quiescence after each; exhaustive: every event order for 3 requests (4 in the thorough tier) x every cancel subset x path assignments x 7 limit pairs; random: 4-7 requests over 3 paths. Oracle at every quiescent point: in-flight <= total limit and <= per-path limit per path; a waiter cancelled while waiting returns its context error and never runs; no waiter exists while both limits have room for it (no lost slot); same-path requests are admitted in arrival order; finally every call has returned, a probe on every path is admitted at once, and no limiter goroutine is left. Non-trivial = a cancel of a request queued behind another one (finite limits); distinct by scenario",
+		Rule:        "the limiter built with (total, per-path) limits from {1,2,unlimited}, the wrapped do blocking on a per-request gate and keeping in-flight gauges; events {arrive(i,path), cancel(i), finish(i)} executed one at a time in a synctest bubble with quiescence after each; exhaustive: every event order for 3 requests (4 in the thorough tier) x every cancel subset x path assignments x 7 limit pairs; random: 4-7 requests over 3 paths. Oracle at every quiescent point: in-flight <= total limit and <= per-path limit per path; a waiter cancelled while waiting returns its context error and never runs; no waiter exists while both limits have room for it (no lost slot); same-path requests are admitted in arrival order; finally every call has returned, a probe on every path is admitted at once, and no limiter goroutine is left. stress: 3-32 real goroutines (no virtual clock) released together on 3 paths, cancelling after 0-400 us, 40 repetitions per pattern; the gauges inside do() give the maximum ever in flight, afterwards the queue table (verif accessor) is empty and a probe on each path runs at once. Non-trivial = a cancel of a request queued behind another one (finite limits); distinct by scenario",
 		Assumptions: []string{"events are applied one at a time, so at a quiescent point a request is either waiting or running: the 'either outcome' tolerance for simultaneous admission and cancellation is not needed"},
 		Floor:       500,
-	}, exhaustive(t, 3), random)
+	}, exhaustive(t, 3), random, stressEngine(r))
 }
